@@ -1,2 +1,85 @@
-(** C02 (placeholder while the proofs are being written). *)
-From Shk Require Import Base.Prelude Model.Audit.
+(** C02 — Activation periods are judged independently and are always closed.
+
+    [run_audition] is the audition round machine of Model/Audit.v (tied to
+    pkg/cmd/audit.go by the correspondence check on every run); the period
+    grammar [trace_run] of Model/AuditSpec.v is the plain meaning: per auditor
+
+        ( Start  Report*  Report_end  Stop )*
+
+    with every period judged by a fresh evaluator started in the table's start
+    state, reports only inside periods, and exactly one end-of-period
+    judgement, right before the Stop.  Statements only. *)
+From Shk Require Import Base.Prelude Model.Value Model.Functions Model.Expr Model.Fsm Model.Audit
+  Model.AuditSpec Proofs.AuditProofs.
+
+(** For every configuration (any number of auditors, any activation
+    conditions, modalities, assignments; member names distinct, as the parser
+    guarantees), every auditor of it and every event history — any length, any
+    interleaving of mood changes and signal samples, whatever variables the
+    expressions mention: the outputs are well-formed periods, each judged
+    independently. *)
+Theorem c02_periods_independent_and_well_formed : forall c es ma os s stt,
+  NoDup (map m_name (c_members c)) -> In ma (c_members c) ->
+  run_audition c es = (os, s, stt) -> stt <> Panicked ->
+  periods_well_formed (m_name ma) (tbl_of ma) os.
+Proof. exact audition_periods_well_formed. Qed.
+
+(** ... and when the history ends with the end of the play, every period has
+    received its (single) end-of-period judgement and is closed. *)
+Theorem c02_every_period_closed : forall c es ma os s,
+  NoDup (map m_name (c_members c)) -> In ma (c_members c) ->
+  ends_final es = true ->
+  run_audition c es = (os, s, Running) ->
+  all_periods_closed (m_name ma) (tbl_of ma) os.
+Proof. exact audition_periods_closed. Qed.
+
+(** A period is a maximal stretch over which the sampled condition holds:
+    whenever the condition's dependencies are fresh, the auditor audits after
+    the round iff the condition evaluated to true ... *)
+Theorem c02_period_follows_condition : forall c s ts m s' o ms b,
+  visit c false s ts m = (s', o, Running) ->
+  get_ms (m_name m) (s_ms s) = Some ms ->
+  has_deps s (m_cond m) = true -> truthy (eval (env_of s) (m_cond m)) = Some b ->
+  exists ms', get_ms (m_name m) (s_ms s') = Some ms' /\ ms_auditing ms' = b.
+Proof. exact visit_tracks_condition. Qed.
+
+(** ... when they are not, the round does not concern the auditor ... *)
+Theorem c02_stale_condition_is_a_no_op : forall c s ts m,
+  has_deps s (m_cond m) = false -> visit c false s ts m = (s, [], Running).
+Proof. exact visit_stale_condition. Qed.
+
+(** ... and outside periods nothing is judged, computed or collected. *)
+Theorem c02_nothing_outside_periods : forall c final s ts m ms s' o stt,
+  get_ms (m_name m) (s_ms s) = Some ms -> ms_auditing ms = false ->
+  wanted final s m <> Some (Some true) ->
+  visit c final s ts m = (s', o, stt) ->
+  o = [] /\ s_vals s' = s_vals s /\ s_act s' = s_act s /\ stt <> Panicked.
+Proof. exact visit_outside_period. Qed.
+
+(** Non-vacuity: a two-auditor configuration (one signal-only `eventually`
+    auditor that audits throughout, one mood-based `always` auditor) and a
+    history on which periods open, are judged, and are closed at the end. *)
+Definition ex_tbl_eventually : fsm_table :=
+  {| f_name := "eventually"; f_start := 0; f_states := ["checking"; "good"; "bad"]%string;
+     f_labels := ["t"; "f"; "end"; "reset"]%string;
+     f_edges := [[1; 0; 2; 0]; [1; 1; 1; 0]; [2; 2; 2; 0]]%nat |}.
+Definition ex_cfg : acfg :=
+  {| c_members := [ {| m_name := "al"; m_cond := EConst (VBool true); m_assigns := [];
+                       m_expect := Some (ex_tbl_eventually, EBin OGt (EVar ("x", "s")%string) (EConst (VNum (100 # 1)))) |};
+                    {| m_name := "bo"; m_cond := EBin OEq (EVar ("", "mood")%string) (EConst (VStr "red"));
+                       m_assigns := [ {| as_target := "v"; as_mode := ATop; as_n := 2; as_expr := EVar ("x", "s")%string |} ];
+                       m_expect := None |} ];
+     c_watchers := [(("x", "s"), ["al"; "bo"]); (("", "mood"), ["bo"])]%string;
+     c_init := [(("", "v")%string, VArr [])] |}.
+Definition ex_events : list event :=
+  [ESig (1 # 2) [(("x", "s")%string, VNum (1 # 1))]; EMood (1 # 1) "red";
+   ESig (3 # 2) [(("x", "s")%string, VNum (2 # 1))]; EMood (2 # 1) "clear"; EFinal (5 # 2)].
+
+Example c02_nonvacuous :
+  let '(os, s, stt) := run_audition ex_cfg ex_events in
+  stt = Running /\
+  trace_run "al" (Some ex_tbl_eventually) PClosed (List.concat os) = Some PClosed /\
+  List.length (filter (fun o => match o with OReport "al" _ _ => true | _ => false end) (List.concat os)) = 3%nat /\
+  List.length (filter (fun o => match o with OStop "bo" => true | _ => false end) (List.concat os)) = 1%nat /\
+  lookup_val ("", "v")%string (s_vals s) = VArr [VNum (2 # 1)].
+Proof. vm_compute. repeat split; reflexivity. Qed.
